@@ -276,19 +276,16 @@ Section C08.
     | _ => None
     end.
 
-  Definition same_prior (a b : snode) : bool :=
-    match a, b with SPrior p _, SPrior q _ => Nat.eqb p q | _, _ => false end.
-
   Definition dict_post (n : snode) (ch : list (string * snode)) (asr : list assertion) : snode :=
     match n with
     | SNode (KModel cls ctor) _ _ => if as_instance n then SNode (KInst cls ctor) ch [] else SNode (KModel cls ctor) ch asr
     | SNode (KBin o) _ _ =>
+        (* CompoundPrior.__init__ (d91c8d6): an operand is kept under the caller's variable name unless that name
+           starts with "_" or is an attribute / property / method of the compound object; on reload the only
+           variables holding the operands are the parameters `left` / `right` of __init__, both properties of the
+           class: the defaults left_ / right_ are used -- also when both operands are ONE re-linked prior object *)
         match ch with
-        | [(_, l); (_, r)] =>
-            (* both operands re-linked to ONE prior object: retrieve_name(left) finds the local `right`,
-               the `right` property setter stores it under right_; only right_ ends up in __dict__ *)
-            if same_prior l r then SNode (KBin o) [("right_", l); ("right_", r)] asr
-            else SNode (KBin o) [("left_", l); ("right_", r)] asr
+        | [(_, l); (_, r)] => SNode (KBin o) [("left_", l); ("right_", r)] asr
         | _ => SNode (KBin o) ch asr
         end
     | _ => rebuild_same n ch asr
